@@ -5,6 +5,7 @@ observer (FETCH FLAGS or SEARCH probes), SEARCH <flag key>, and the on-disk
 .mh_sequences read with the stdlib MH parser."""
 import itertools
 
+from .c13 import sk_delivery_while_an_expunge_is_running
 from .hist_base import HistProp, module_api
 
 PROP = "C04"
@@ -191,7 +192,9 @@ class C04(HistProp):
     prop = PROP
     names = ["INBOX", "other"]
     pack_limits = [100, 100, 100, 100, 4, 100, 6]
-    skeletons = [sk_all_single_message_flag_sets, sk_store_semantics, sk_collision_keywords, sk_store_over_mixed_recent, sk_flags_survive_a_pack, sk_flags_follow_messages_through_rename_inbox]
+    # (the last one is C13's: the flags of what arrives while an EXPUNGE/MOVE/CLOSE is rewriting .mh_sequences are flags too)
+    skeletons = [sk_all_single_message_flag_sets, sk_store_semantics, sk_collision_keywords, sk_store_over_mixed_recent, sk_flags_survive_a_pack, sk_flags_follow_messages_through_rename_inbox,
+                 sk_delivery_while_an_expunge_is_running]
     weights = {"store": 16, "uid_store": 10, "store_del": 3, "fetch": 6, "fetch_body": 6, "uid_fetch": 4, "append": 8, "copy": 5, "uid_copy": 2, "move": 2, "noop": 10,
                "search_flag": 8, "deliver": 3, "expunge": 3, "idle": 2, "examine": 2, "deliver_stalled": 2, "advance": 2, "rename_inbox": 1}
     opts = {"flag_pool": ORDINARY, "examine_prob": 0.1, "rename_targets": ["saved", "saved2"]}
